@@ -817,6 +817,103 @@ fn prepend_append_case(prop: &str, idx: u64, uid: u64, tmproot: &Path) -> CaseRe
     }
 }
 
+/// a directory tree given on the command line (alone, or next to an explicitly named document): every test case of
+/// every document with a matching extension (`md`, `markdown`, `t`, `cram`) below it runs exactly once, in the order
+/// of its document; files with other extensions are not documents; the exit status follows the verdicts
+fn dir_case(prop: &str, idx: u64, tmproot: &Path) -> CaseRec {
+    let mut rng = Rng::fork(idx, 77, idx);
+    let dir = tmproot.join(format!("dir-{idx}"));
+    let _ = std::fs::remove_dir_all(&dir);
+    std::fs::create_dir_all(dir.join("tmp")).unwrap();
+    std::fs::create_dir_all(dir.join("docs/sub/deeper")).unwrap();
+    let marker = dir.join("marker");
+    let places = ["docs/a.md", "docs/b.t", "docs/sub/c.markdown", "docs/sub/deeper/d.cram", "docs/sub/e.md", "docs/z.md"];
+    let mut docs: Vec<EDoc> = vec![];
+    let mut want_fail = false;
+    for (di, rel) in places.iter().enumerate() {
+        if di > 1 && rng.chance(1, 3) {
+            docs.push(EDoc { compat_skip: None, cram: false, broken: true, total: None, tests: vec![] }); // placeholder: not written
+            continue;
+        }
+        let cram = rel.ends_with(".t") || rel.ends_with(".cram");
+        let n = rng.range(1, 3);
+        let tests: Vec<(Beh, Option<u64>)> = (0..n).map(|_| (if rng.chance(1, 4) { Beh::BadOut } else { Beh::Pass }, None)).collect();
+        want_fail |= tests.iter().any(|(b, _)| matches!(b, Beh::BadOut));
+        let d = EDoc { compat_skip: None, cram, broken: false, total: None, tests };
+        let (text, _) = render_doc(&d, di, &marker);
+        std::fs::write(dir.join(rel), text).unwrap();
+        docs.push(d);
+    }
+    // not documents: wrong extension (would fail every test if it were run), a directory named like a document
+    std::fs::write(dir.join("docs/notes.txt"), "# no\n\n```scrut\n$ echo D9T0 >> marker; false\nnever\n```\n").unwrap();
+    std::fs::write(dir.join("docs/sub/README"), "  $ false\n  never\n").unwrap();
+    std::fs::create_dir_all(dir.join("docs/sub/empty.md")).unwrap();
+    // an explicitly named document outside the tree, before or after the directory
+    let extra = EDoc { compat_skip: None, cram: false, broken: false, total: None, tests: vec![(Beh::Pass, None)] };
+    let (text, _) = render_doc(&extra, 7, &marker);
+    std::fs::write(dir.join("extra.md"), text).unwrap();
+    let extra_first = rng.chance(1, 2);
+    let mut cmd = std::process::Command::new(scrut_bin());
+    cmd.arg("test").arg("-r").arg("json");
+    if extra_first {
+        cmd.arg(dir.join("extra.md"));
+    }
+    cmd.arg(dir.join("docs"));
+    if !extra_first {
+        cmd.arg(dir.join("extra.md"));
+    }
+    let out = cmd.current_dir(&dir).env("TMPDIR", dir.join("tmp")).env("NO_COLOR", "1").output().expect("run scrut");
+    let code = out.status.code().unwrap_or(-1);
+    let stdout = String::from_utf8_lossy(&out.stdout).to_string();
+    let json: Option<serde_json::Value> = stdout.find('[').and_then(|p| serde_json::from_str(&stdout[p..]).ok());
+    let mut got: Vec<String> = vec![];
+    if let Some(serde_json::Value::Array(items)) = &json {
+        for it in items {
+            let title = it.get("title").and_then(|t| t.as_str()).or_else(|| it.pointer("/testcase/title").and_then(|t| t.as_str())).unwrap_or("");
+            let kind = it.pointer("/result/kind").and_then(|k| k.as_str()).unwrap_or("?");
+            got.push(format!("{title}:{kind}"));
+        }
+    }
+    let mut fails = vec![];
+    // expected per document: its tests in order; across documents the order is the file system's
+    let mut want: Vec<Vec<String>> = vec![];
+    for (di, d) in docs.iter().enumerate() {
+        if d.broken {
+            continue;
+        }
+        want.push(d.tests.iter().enumerate().map(|(ti, (b, _))| format!("D{di}T{ti}:{}", if matches!(b, Beh::BadOut) { "malformed_output" } else { "success" })).collect());
+    }
+    want.push(vec!["D7T0:success".to_string()]);
+    let marks: Vec<String> = std::fs::read_to_string(&marker).unwrap_or_default().lines().map(|l| l.to_string()).collect();
+    for w in &want {
+        // results of one document: each once, in order, contiguous
+        let pos: Vec<Option<usize>> = w.iter().map(|x| got.iter().position(|g| g == x)).collect();
+        let dup = w.iter().any(|x| got.iter().filter(|g| *g == x).count() != 1);
+        let ordered = pos.iter().all(|p| p.is_some()) && pos.windows(2).all(|p| p[0].unwrap() + 1 == p[1].unwrap());
+        if dup || !ordered {
+            fails.push(("C20:directory-results".to_string(), format!("document results {:?} not reported once each, in order, in {:?}", w, got)));
+        }
+        let ids: Vec<String> = w.iter().map(|x| x.split(':').next().unwrap().to_string()).collect();
+        let mpos: Vec<Option<usize>> = ids.iter().map(|x| marks.iter().position(|g| g == x)).collect();
+        if ids.iter().any(|x| marks.iter().filter(|g| *g == x).count() != 1) || !mpos.windows(2).all(|p| p[0] < p[1]) {
+            fails.push(("C20:directory-execution".to_string(), format!("test cases {:?} not executed once each, in order: {:?}", ids, marks)));
+        }
+    }
+    let n_want: usize = want.iter().map(|w| w.len()).sum();
+    if got.len() != n_want || marks.len() != n_want {
+        fails.push(("C20:directory-results".to_string(), format!("{} results and {} executions for {} test cases: {:?}", got.len(), marks.len(), n_want, got)));
+    }
+    if extra_first != (got.first().map(|g| g.starts_with("D7")).unwrap_or(false)) || extra_first == (got.last().map(|g| g.starts_with("D7")).unwrap_or(false)) {
+        fails.push(("C20:directory-argument-order".to_string(), format!("the explicitly named document was given {} the directory: {:?}", if extra_first { "before" } else { "after" }, got)));
+    }
+    let want_exit = if want_fail { 50 } else { 0 };
+    if code != want_exit {
+        fails.push(("C20:exit-status".to_string(), format!("directory run: exit status {code}, expected {want_exit}; stderr {}", String::from_utf8_lossy(&out.stderr).chars().take(200).collect::<String>())));
+    }
+    let _ = std::fs::remove_dir_all(&dir);
+    CaseRec { op: "noop".into(), impl_out: "ok".into(), oracle_fail: keep(prop, fails), nontrivial: true, tags: vec!["e2e:directory".into(), format!("e2e:directory-docs={}", want.len())] }
+}
+
 fn gen_edoc(rng: &mut Rng, allow_broken: bool) -> EDoc {
     let cram = rng.chance(1, 4);
     let broken = allow_broken && rng.chance(1, 12);
@@ -1072,6 +1169,11 @@ pub fn run(ctx: &Ctx, prop: &str) {
             let idx = if ctx.thorough { i } else { Rng::fork(seed, 13, i).below(all) };
             Some(prepend_append_case(prop, idx, i, &tr))
         });
+    }
+    // 3d. directories on the command line (C20)
+    if prop == "C20" || ctx.thorough {
+        let tr = tmproot.clone();
+        ctx.run_stream("e2e-directory", if ctx.thorough { 200 } else { 24 }, false, |i| Some(dir_case(prop, seed.wrapping_mul(1000) + i, &tr)));
     }
     // 4. wall-clock documents (C14; a short list, each a few seconds at most)
     if prop == "C14" || prop == "C20" || ctx.thorough {
